@@ -138,4 +138,6 @@ def run(repo, tier):
     run_unravel(repo, res, {m for m in repo.modules if '.tests' not in m and 'extern' not in m})
     run_slice_kind(repo, res, {m for m in repo.modules if '.tests' not in m and 'extern' not in m})
     res.floor('SLICE-KIND', 15)
+    from .common import run_generic_pack
+    run_generic_pack(repo, res, PROP, MODS)
     return res
